@@ -69,7 +69,7 @@ pub assume_specification<'a, T: Copy>[ Option::<&'a T>::copied ](o: Option<&'a T
 
 /// the items an `IntoIterator<Item = &T>` yields; only fixed for slices (axiom below)
 pub uninterp spec fn ext_items<'a, T: Copy + 'a, I: IntoIterator<Item = &'a T>>(i: I) -> Seq<T>;
-pub assume_specification<'a, T: Copy + 'a, A: std::alloc::Allocator, I: IntoIterator<Item = &'a T>>[ <Vec<T, A> as Extend<&'a T>>::extend ](v: &mut Vec<T, A>, i: I)
+pub assume_specification<'a, T: Copy + 'a, A: core::alloc::Allocator, I: IntoIterator<Item = &'a T>>[ <Vec<T, A> as Extend<&'a T>>::extend ](v: &mut Vec<T, A>, i: I)
     ensures final(v)@ == old(v)@ + ext_items::<T, I>(i);
 pub broadcast axiom fn axiom_ext_items_slice<'a, T: Copy>(s: &'a [T])
     ensures #[trigger] ext_items::<T, &'a [T]>(s) == s@;
@@ -86,7 +86,7 @@ pub open spec fn mask_filter<T>(s: Seq<T>, mask: Seq<bool>) -> Seq<T>
 }
 /// `Vec::retain` calls the predicate once per element, in order, and keeps exactly the elements for
 /// which it returned true (`mask` = the values the calls returned)
-pub assume_specification<T, A: std::alloc::Allocator, F: FnMut(&T) -> bool>[ Vec::<T, A>::retain ](v: &mut Vec<T, A>, f: F)
+pub assume_specification<T, A: core::alloc::Allocator, F: FnMut(&T) -> bool>[ Vec::<T, A>::retain ](v: &mut Vec<T, A>, f: F)
     requires
         forall|i: int| #![trigger old(v)@[i]] 0 <= i < old(v)@.len() ==> f.requires((&old(v)@[i],)),
     ensures
@@ -132,5 +132,66 @@ pub proof fn lemma_mask_filter_all<T>(s: Seq<T>, mask: Seq<bool>)
         assert(s.drop_last().push(s.last()) =~= s);
     } else {
         assert(s =~= Seq::<T>::empty());
+    }
+}
+/// a mask that drops exactly the occurrences of k, applied to a duplicate-free list
+pub proof fn lemma_mask_filter_ne<T>(s: Seq<T>, mask: Seq<bool>, k: T)
+    requires mask.len() == s.len(), s.no_duplicates(), forall|i: int| 0 <= i < s.len() ==> #[trigger] mask[i] == (s[i] != k),
+    ensures mask_filter(s, mask).no_duplicates(),
+        forall|x: T| #[trigger] mask_filter(s, mask).contains(x) <==> (s.contains(x) && x != k),
+    decreases s.len(),
+{
+    let r = mask_filter(s, mask);
+    if s.len() == 0 {
+        assert forall|x: T| #[trigger] r.contains(x) <==> (s.contains(x) && x != k) by {}
+    } else {
+        let s1 = s.drop_last();
+        let m1 = mask.drop_last();
+        let r1 = mask_filter(s1, m1);
+        let y = s.last();
+        lemma_mask_filter_ne(s1, m1, k);
+        assert forall|x: T| s.contains(x) <==> (s1.contains(x) || x == y) by {
+            if s.contains(x) {
+                let i = choose|i: int| 0 <= i < s.len() && s[i] == x;
+                if i < s1.len() { assert(s1[i] == x); }
+            }
+            if s1.contains(x) {
+                let i = choose|i: int| 0 <= i < s1.len() && s1[i] == x;
+                assert(s[i] == x);
+            }
+            if x == y { assert(s[s.len() - 1] == x); }
+        }
+        assert(!s1.contains(y)) by {
+            if s1.contains(y) {
+                let i = choose|i: int| 0 <= i < s1.len() && s1[i] == y;
+                assert(s[i] == s[s.len() - 1]);
+            }
+        }
+        if mask.last() {
+            assert(r == r1.push(y));
+            assert(!r1.contains(y));
+            // r1.push(y): duplicate-free, membership
+            assert forall|x: T| #[trigger] r.contains(x) <==> (r1.contains(x) || x == y) by {
+                if r.contains(x) {
+                    let i = choose|i: int| 0 <= i < r.len() && r[i] == x;
+                    if i < r1.len() { assert(r1[i] == x); }
+                }
+                if r1.contains(x) {
+                    let i = choose|i: int| 0 <= i < r1.len() && r1[i] == x;
+                    assert(r[i] == x);
+                }
+                if x == y { assert(r[r1.len() as int] == x); }
+            }
+            assert forall|i: int, j: int| 0 <= i < r.len() && 0 <= j < r.len() && i != j implies r[i] != r[j] by {
+                if i < r1.len() && j < r1.len() {
+                } else if i < r1.len() {
+                    assert(r1.contains(r1[i]));
+                } else {
+                    assert(r1.contains(r1[j]));
+                }
+            }
+        } else {
+            assert(r == r1);
+        }
     }
 }
